@@ -700,7 +700,9 @@ def r_iife(body):
         # statement form:  (|| -> Result<_, E> { STMTS; Ok(()) })().map_err(|e| e.annotate(S))?;   ->   { STMTS }
         st = re.match(r"\s*\)\s*\(\s*\)\s*\.map_err\(\s*\|\s*\w+\s*\|\s*\w+\.annotate\([^()]*(\([^()]*\))?[^()]*\)\s*\)\s*\?\s*;", body[cb + 1:], re.S)
         sm = re.match(r"^(.*)\bOk\(\s*\(\s*\)\s*\)$", inner, re.S)
-        if st and sm and not re.search(r"\breturn\b", inner):
+        # `return Err(..)` inside the closure ends the closure with an error, which the trailing `?` turns into the function's error
+        # at once: the same as returning it from the function (payload annotation aside); any other `return` is not rewritten
+        if st and sm and not re.search(r"\breturn\b(?!\s+Err\()", inner):
             new = "{ " + sm.group(1) + " }"
             log.append(("R-iife", "(|| -> Result<_, E> { STMTS; Ok(()) })().map_err(|e| e.annotate(..))?;", "{ STMTS }"))
             body = body[:mo.start()] + new + body[cb + 1 + st.end():]
